@@ -109,6 +109,12 @@ def surface_kwargs(op, cache=None):
     kw['index'] = op['index']
     if 'radius' in op:
         kw['radius'] = op['radius']
+        if op.get('np0d') and isinstance(op['radius'], (int, float)) and \
+                math.isfinite(op['radius']):
+            # a 0-d numpy array, as comes out of a numpy computation of the
+            # prescription (legitimate input; in-place arithmetic on it
+            # anywhere is visible to everyone who shares it)
+            kw['radius'] = np.asarray(float(op['radius']))
     if 'conic' in op:
         kw['conic'] = op['conic']
     if 'thickness' in op:
